@@ -800,11 +800,21 @@ func c15WSMany(w *W) {
 	var first atomic.Bool
 	s.SetPipeEventHook(func(ev mangos.PipeEvent, p mangos.Pipe) {
 		if ev == mangos.PipeEventAttached && first.CompareAndSwap(false, true) {
-			time.Sleep(300 * time.Millisecond) // the accept loop is away for a while
+			w.Sleep(300 * time.Millisecond) // the accept loop is away for a while
 		}
 	})
 	info := s.Info()
-	l, err := s.NewListener("ws://"+loopIP+":0/sp", nil)
+	laddr := "ws://" + loopIP + ":0/sp"
+	var cliTLS *tls.Config
+	if !w.Real {
+		// engine B: the same inside the simulation, over ws or wss
+		w.UseNet(NetCfg{Segment: w.Choose(simrt.SShape, 2) == 0})
+		laddr = w.Addr([]string{"ws", "wss"}[w.Choose(simrt.SShape, 2)])
+		if strings.HasPrefix(laddr, "wss") {
+			_, cliTLS = simTLS()
+		}
+	}
+	l, err := s.NewListener(laddr, w.EpOpts(laddr, true, nil))
 	if err != nil || l.Listen() != nil {
 		w.Failf("HARNESS/listen", "ws listen: %v", err)
 		return
@@ -818,7 +828,11 @@ func c15WSMany(w *W) {
 	}()
 	want := map[string]bool{}
 	for i := 0; i < nc; i++ {
-		d := &websocket.Dialer{Subprotocols: []string{info.SelfName + ".sp.nanomsg.org"}, HandshakeTimeout: 30 * time.Second}
+		d := &websocket.Dialer{Subprotocols: []string{info.SelfName + ".sp.nanomsg.org"}, HandshakeTimeout: 30 * time.Second, TLSClientConfig: cliTLS}
+		if !w.Real {
+			d.HandshakeTimeout = 0
+			d.NetDialContext = func(ctx context.Context, network, addr string) (net.Conn, error) { return curNet.Dial(NetKey("tcp://" + addr)) }
+		}
 		c, _, err := d.Dial(url, nil)
 		if err != nil {
 			w.Failf("C15/ws-conforming-client-refused", "%s listener refused client %d offering %s.sp.nanomsg.org: %v", kind, i, info.SelfName, err)
@@ -832,7 +846,7 @@ func c15WSMany(w *W) {
 			return
 		}
 		if i == 0 {
-			time.Sleep(30 * time.Millisecond) // let the first attach begin (and its callback start sleeping)
+			w.Sleep(30 * time.Millisecond) // let the first attach begin (and its callback start sleeping)
 		}
 	}
 	for len(want) > 0 {
@@ -854,4 +868,5 @@ func c15WSMany(w *W) {
 
 func init() {
 	register(&Scenario{Name: "websocket-many-clients", Prop: "C15", Engine: "R", Weight: 1, Run: c15WSMany})
+	register(&Scenario{Name: "websocket-many-clients-sim", Prop: "C15", Horizon: time.Hour, Weight: 2, Run: c15WSMany})
 }
